@@ -174,7 +174,7 @@ fn cells(tier: Tier, seed: u64) -> Vec<Cell> {
     {
         // random cells from the region delta >= eps/2 (below 0.85*delta at design time)
         let mut g = SplitMix64(mix_str(seed, "c08-random"));
-        for _ in 0..tier.pick(60, 400) {
+        for _ in 0..tier.pick(60, 1500) {
             let eps = 10f64.powf(-0.3 - 2.2 * g.f64());
             let delta = (eps / 2.0) + (0.98 - eps / 2.0) * g.f64().powi(2);
             let c = Cell { eps: (eps * 1e4).round() / 1e4, delta: (delta * 1e4).round() / 1e4, shape: Shape::Heavy, seeds: tier.pick(1000, 2000), seed: 0 };
@@ -190,7 +190,7 @@ pub fn checks() -> Vec<Box<dyn DynCheck>> {
 }
 
 pub fn run(ctx: &Ctx) {
-    ctx.set_rule("cells (epsilon, delta, stream shape): epsilon in {0.5,0.3,0.1,0.03,0.01,0.003} x delta in {0.99,0.9,0.5,0.3,0.1,0.03,0.01,0.003} x {heavy: ceil(1/eps)-1 elements weighted just above eps*N plus 300 light probe elements; zipf; uniform}; plus generated (epsilon, delta) with delta >= epsilon/2 (60 quick / 400 thorough). Each cell: many seeded SipHash hashers x 300 queried elements; per-seed fraction of elements with query_point - true > epsilon*N; mean tested against delta at z = 6 with cluster-robust s.e. and a 4x confirmation with fresh seeds. Cells listed in known_findings.json are still measured and only alarm above their recorded ceiling. Non-trivial: cells with >= 50 expected exceedances at the bound. Distinct = cell. evaluations = cells + queried (seed, element) pairs.");
+    ctx.set_rule("cells (epsilon, delta, stream shape): epsilon in {0.5,0.3,0.1,0.03,0.01,0.003} x delta in {0.99,0.9,0.5,0.3,0.1,0.03,0.01,0.003} x {heavy: ceil(1/eps)-1 elements weighted just above eps*N plus 300 light probe elements; zipf; uniform}; plus generated (epsilon, delta) with delta >= epsilon/2 (60 quick / 1500 thorough). Each cell: many seeded SipHash hashers x 300 queried elements; per-seed fraction of elements with query_point - true > epsilon*N; mean tested against delta at z = 6 with cluster-robust s.e. and a 4x confirmation with fresh seeds. Cells listed in known_findings.json are still measured and only alarm above their recorded ceiling. Non-trivial: cells with >= 50 expected exceedances at the bound. Distinct = cell. evaluations = cells + queried (seed, element) pairs.");
     ctx.assume("fraction taken over SipHash seeds and queried elements; sketch built by with_point_query_properties_and_hasher");
     let c = C08 { known: Known::load() };
     ctx.run_regressions(&[&c]);
